@@ -220,6 +220,12 @@ pub enum Op {
 #[derive(Clone, Debug, Serialize, Deserialize)]
 pub struct CacheCase {
     pub ops: Vec<Op>,
+    /// cache.timeout in seconds; 0 = caching disabled
+    #[serde(default = "one")]
+    pub timeout: u8,
+}
+fn one() -> u8 {
+    1
 }
 
 const CU: &[&str] = &["carol", "dave", "carol2"];
@@ -231,7 +237,7 @@ fn cache_strategy() -> impl Strategy<Value = CacheCase> {
         3 => (prop_oneof![3 => Just(0u8), 1 => 1u8..3], prop_oneof![3 => Just(0u8), 1 => 1u8..3], any::<bool>()).prop_map(|(u, p, b)| Op::SetTruth(u, p, b)),
         3 => (0u8..2).prop_map(Op::Wait),
     ];
-    prop::collection::vec(op, 6..16).prop_map(|ops| CacheCase { ops })
+    (prop::collection::vec(op, 6..16), prop_oneof![3 => Just(1u8), 1 => Just(0u8)]).prop_map(|(ops, timeout)| CacheCase { ops, timeout })
 }
 
 pub fn run_cache(c: &CacheCase, idx: usize) -> Result<(bool, serde_json::Value), Failure> {
@@ -242,9 +248,10 @@ pub fn run_cache(c: &CacheCase, idx: usize) -> Result<(bool, serde_json::Value),
     let _ = std::fs::write(&truth, "");
     let _ = std::fs::write(&calls, "");
     let yaml = format!(
-        "required: true\nusers:\n  - username: alice\n    password: secret\ncmd: [\"/verif/tools/authcmd.sh\", \"{}\", \"{}\", \"#USER#\", \"#PASS#\"]\ncache:\n  timeout: 1\n",
-        truth, calls
+        "required: true\nusers:\n  - username: alice\n    password: secret\ncmd: [\"/verif/tools/authcmd.sh\", \"{}\", \"{}\", \"#USER#\", \"#PASS#\"]\ncache:\n  timeout: {}\n",
+        truth, calls, c.timeout
     );
+    let tmo = c.timeout as u64 * 1000;
     let ops = c.ops.clone();
     let r = catch(move || {
         let rt = tokio::runtime::Builder::new_current_thread().enable_all().build().unwrap();
@@ -291,8 +298,8 @@ pub fn run_cache(c: &CacheCase, idx: usize) -> Result<(bool, serde_json::Value),
                         let truth_val = truth_now.get(&k).cloned().unwrap_or(false);
                         let cached = cache.get(&k).cloned();
                         let age = cached.map(|(_, at)| t0.duration_since(at));
-                        let fresh = matches!(age, Some(a) if a < Duration::from_millis(700));
-                        let stale = matches!(age, Some(a) if a > Duration::from_millis(1400)) || cached.is_none();
+                        let fresh = tmo > 0 && matches!(age, Some(a) if a < Duration::from_millis(tmo - 300));
+                        let stale = tmo == 0 || matches!(age, Some(a) if a > Duration::from_millis(tmo + 400)) || cached.is_none();
                         if called {
                             // a consultation: the verdict must be the truth of this very pair, now
                             if got != truth_val {
@@ -316,7 +323,7 @@ pub fn run_cache(c: &CacheCase, idx: usize) -> Result<(bool, serde_json::Value),
                                 }
                                 Some((v, _)) => {
                                     if stale {
-                                        return Err(Failure::new("stale-verdict-reused", format!("op #{}: the cached verdict for ({},{}) is {:?} old (timeout 1 s) but was reused", i, k.0, k.1, age)));
+                                        return Err(Failure::new("stale-verdict-reused", format!("op #{}: the cached verdict for ({},{}) is {:?} old (timeout {} s) but was reused", i, k.0, k.1, age, tmo / 1000)));
                                     }
                                     if got != v {
                                         return Err(Failure::new("cached-verdict-changed", format!("op #{}: cached verdict {} for ({},{}) but got {}", i, v, k.0, k.1, got)));
@@ -329,7 +336,7 @@ pub fn run_cache(c: &CacheCase, idx: usize) -> Result<(bool, serde_json::Value),
                     }
                 }
             }
-            Ok::<_, Failure>((hit && expiry && truth_changed_under_cache, json!({"history": trace})))
+            Ok::<_, Failure>(((hit && expiry || tmo == 0) && truth_changed_under_cache, json!({"history": trace, "cache_timeout_s": tmo / 1000})))
         })
     });
     let _ = std::fs::remove_dir_all(&dir);
@@ -348,7 +355,7 @@ impl SubCheck for CacheCheck {
         "verdict-cache"
     }
     fn rule(&self) -> String {
-        "histories of 4-13 operations against the real AuthData with an external command (a script that consults a truth file and logs every call) and a 1 s verdict cache, real clock, run in parallel: Attempt(user, pass) over 3x3 similar names/passwords (carol/carol2, pw1/pw1x), SetTruth(user, pass, bool), Wait(0.3 s | 1.6 s); oracle: every verdict is justified by a command call made for exactly that pair at that moment, or by a cached verdict for the identical pair younger than the timeout (0.7 s / 1.4 s guard bands); the command is never run for another pair; a fresh cache entry is used; non-trivial = a history with a cache hit, an expiry and a truth change under a cached verdict".into()
+        "histories of 4-13 operations against the real AuthData with an external command (a script that consults a truth file and logs every call) and a verdict cache of 1 s (3 in 4 histories) or 0 s = disabled, real clock, run in parallel: Attempt(user, pass) over 3x3 similar names/passwords (carol/carol2, pw1/pw1x), SetTruth(user, pass, bool), Wait(0.3 s | 1.6 s); oracle: every verdict is justified by a command call made for exactly that pair at that moment, or by a cached verdict for the identical pair younger than the timeout (0.7 s / 1.4 s guard bands); the command is never run for another pair; a fresh cache entry is used; with the cache disabled every attempt must consult the command; non-trivial = a history with a truth change under a cached verdict and (a cache hit and an expiry, or a disabled cache)".into()
     }
     fn run(&self, part: &mut Part) {
         let n = part.tier.pick(40, 800) as usize;
